@@ -342,12 +342,15 @@ class EList(ECollection, list):
             if self.is_ref:
                 for element in y:
                     self.check(element)
-                    self._update_container(element)
-                    self._update_opposite(element, self.owner)
                 # We remove (not really) all element from the slice
+                # (before the new ones are linked: an element of the slice
+                # may be assigned again)
                 for element in sliced_elements:
                     self._update_container(None, previous_value=element)
                     self._update_opposite(element, self.owner, remove=True)
+                for element in y:
+                    self._update_container(element)
+                    self._update_opposite(element, self.owner)
             else:
                 for element in y:
                     self.check(element)
